@@ -187,27 +187,41 @@ Theorem cmp_construct_spec : forall c,
 Proof. exact construct_spec_l. Qed.
 Print Assumptions cmp_construct_spec.
 
+(** A supplied function is called exactly once, on (a.value, b.value), and not at
+    all between operands that are not comparable. *)
 Theorem cmp_uses_supplied : forall V feq flt fle fgt fge same_cls c o a b,
   supplied c o = true ->
   meth V feq flt fle fgt fge same_cls c o a b
   = if is_comparable_to V same_cls c a b
-    then fn V feq flt fle fgt fge o (w_val V a) (w_val V b) else NI.
+    then (fn V feq flt fle fgt fge o (w_val V a) (w_val V b), [(o, w_val V a, w_val V b)])
+    else (NI, []).
 Proof. exact uses_supplied_l. Qed.
 Print Assumptions cmp_uses_supplied.
 
 Theorem cmp_ne_negates_eq : forall V feq flt fle fgt fge same_cls c a b,
   meth V feq flt fle fgt fge same_cls c ONe a b
-  = tri_not (meth V feq flt fle fgt fge same_cls c OEq a b).
+  = (tri_not (fst (meth V feq flt fle fgt fge same_cls c OEq a b)),
+     snd (meth V feq flt fle fgt fge same_cls c OEq a b)).
 Proof. exact ne_negates_eq_l. Qed.
 Print Assumptions cmp_ne_negates_eq.
 
+(** Type mismatch under require_same_type: every operator, root or derived,
+    answers NotImplemented and its call trace is empty (no supplied function is
+    consulted, so a function that is only defined on one value type cannot raise). *)
 Theorem cmp_type_mismatch_notimplemented : forall V feq flt fle fgt fge same_cls c o a b,
   same_type c = true ->
   same_cls (w_val V a) (w_val V b) = false -> same_cls (w_val V b) (w_val V a) = false ->
   w_id V a <> w_id V b ->
-  meth V feq flt fle fgt fge same_cls c o a b = NI.
+  meth V feq flt fle fgt fge same_cls c o a b = (NI, []).
 Proof. exact type_mismatch_notimplemented_l. Qed.
 Print Assumptions cmp_type_mismatch_notimplemented.
+
+(** Every call any of the six methods makes is a call of a SUPPLIED function on
+    the two wrapped values, between comparable operands. *)
+Theorem cmp_only_supplied_called : forall V feq flt fle fgt fge same_cls c o a b,
+  Forall (entry_ok V same_cls c a b) (snd (meth V feq flt fle fgt fge same_cls c o a b)).
+Proof. exact only_supplied_called_l. Qed.
+Print Assumptions cmp_only_supplied_called.
 
 (** All 64 configurations: when the supplied functions describe one total
     order, every operator the class defines (supplied or derived by
@@ -219,7 +233,7 @@ Theorem cmp_derived_consistent : forall V feq flt fle fgt fge same_cls key c,
   forall a b, is_comparable_to V same_cls c a b = true ->
               is_comparable_to V same_cls c b a = true ->
   forall o, defined c o = true ->
-  meth V feq flt fle fgt fge same_cls c o a b
+  fst (meth V feq flt fle fgt fge same_cls c o a b)
   = of_bool (honest o (key (w_val V a)) (key (w_val V b))).
 Proof. exact derived_consistent_l. Qed.
 Print Assumptions cmp_derived_consistent.
